@@ -68,11 +68,12 @@ func runC12(cfg config) {
 	universe = append(universe, sysNames...)
 	// ---- values --------------------------------------------------------------------------------------------------
 	type val struct {
-		env   any
-		lit   string
-		decl  declType
-		inner any // for a choice wrapper: the chosen value `as` must return
-		desc  string
+		env     any
+		lit     string
+		decl    declType
+		inner   any // for a choice wrapper: the chosen value `as` must return
+		desc    string
+		minimal bool // an empty instance made from the descriptor: own type and the base types only
 	}
 	var vals []val
 	for _, s := range []struct{ lit, name string }{{"1", "Integer"}, {"'a'", "String"}, {"true", "Boolean"}, {"1.5", "Decimal"}, {"@2020-01-01", "Date"}, {"@2020T", "DateTime"}, {"@T10:00", "Time"}, {"1 'mg'", "Quantity"}} {
@@ -150,6 +151,48 @@ func runC12(cfg config) {
 			vals = append(vals, val{env: m, decl: d, desc: tn + " " + string(md.FullName())})
 		})
 	}
+	// every message type reachable from the 146 resources (nested components at any depth, datatypes, code wrappers): an
+	// empty instance of each one not met above, against its own type and the base types
+	{
+		seenMD := map[string]bool{}
+		var order []protoreflect.MessageDescriptor
+		var reach func(md protoreflect.MessageDescriptor)
+		reach = func(md protoreflect.MessageDescriptor) {
+			fn := string(md.FullName())
+			if seenMD[fn] || !strings.HasPrefix(fn, "google.fhir.r4.core.") || fn == "google.fhir.r4.core.ContainedResource" {
+				return
+			}
+			seenMD[fn] = true
+			order = append(order, md)
+			fds := md.Fields()
+			for i := 0; i < fds.Len(); i++ {
+				if fd := fds.Get(i); fd.Kind() == protoreflect.MessageKind && !fd.IsMap() {
+					reach(fd.Message())
+				}
+			}
+		}
+		for _, tn := range resourceNames() {
+			reach((&genState{r: &rng{s: 1}}).resource(tn, 0).ProtoReflect().Descriptor())
+		}
+		nMinimal := 0
+		for _, md := range order {
+			if isChoiceType(md) {
+				continue
+			}
+			m := newMessage(md).Interface()
+			d := declOf(m)
+			if d.kind == "" {
+				continue
+			}
+			if seenKind[d.kind+":"+d.name+":"+string(md.FullName())] > 0 {
+				continue
+			}
+			nMinimal++
+			vals = append(vals, val{env: m, decl: d, desc: "empty " + string(md.FullName()), minimal: true})
+		}
+		sink.extra["reachable_message_types"] = len(order)
+		sink.extra["empty_instances_added"] = nMinimal
+	}
 	input := []proto.Message{basePatient()}
 	specCoq := func(ns, name string) string {
 		nsq := "None"
@@ -163,7 +206,11 @@ func runC12(cfg config) {
 		targets := map[string]bool{v.decl.name: true, "Element": true, "BackboneElement": true, "Resource": true, "DomainResource": true, "string": true, "String": true,
 			"integer": true, "Integer": true, "uri": true, "Quantity": true, "code": true, "Any": true, "Foo": true, "Patient": true, "boolean": true, "Boolean": true}
 		delete(targets, "")
-		for k := 0; k < 10; k++ {
+		if v.minimal {
+			targets = map[string]bool{v.decl.name: true, "Element": true, "BackboneElement": true, "Resource": true, "DomainResource": true, "code": true}
+			delete(targets, "")
+		}
+		for k := 0; k < 10 && !v.minimal; k++ {
 			targets[pick(r, universe)] = true
 		}
 		var tl []string
@@ -174,6 +221,9 @@ func runC12(cfg config) {
 		for _, t := range tl {
 			for _, ns := range []string{"", "FHIR", "System", "Bar"} {
 				if ns == "Bar" && r.intn(4) != 0 {
+					continue
+				}
+				if v.minimal && ns != "" {
 					continue
 				}
 				spec := t
